@@ -197,7 +197,10 @@ func (w *qWorld) onError(co *consumer, f Frame) {
 			}
 			if kind == "touch" {
 				if len(d.pendingTouch) > 0 {
-					d.pendingTouch = d.pendingTouch[1:]
+					// several TOUCHes of one delivery may be unresolved (a burst that slept until a deadline); a
+					// connection's commands are executed in order, so once the message has left the in-flight set
+					// all later ones fail: the refused one is the latest, the earlier ones renewed the deadline
+					d.pendingTouch = d.pendingTouch[:len(d.pendingTouch)-1]
 					w.onAnswerFailed(co, d, "touch")
 					return
 				}
